@@ -574,6 +574,17 @@ func clearGlobals() {
 	gArr[2] = ""
 }
 
+type Store :struct {
+	names: [2]string
+	nodes: [2]*Node
+}
+
+func Store.Snapshot() => [2]string { return this.names }
+func Store.Nodes() => [2]*Node { return this.nodes }
+func mkStore(s: string, t: string, v: int) => Store {
+	return Store{names: [2]string{s + "0", t + "1"}, nodes: [2]*Node{&Node{val: v, name: s}, nil}}
+}
+
 func catAny(xs: ...interface{}) => string {
 	r := ""
 	for _, x := range xs {
@@ -1124,6 +1135,7 @@ func (g *gen) formOps4() {
 	g.add("package-level variables parked and cleared with constants", fmt.Sprintf("gStr = %s + \"g\"\ngNode = &Node{val: b, name: itoa(c)}\ngSI = append([]int{}, c, b)\ngAny = %s\nk := c\ngFn = func() => int {\nreturn k + 1\n}\nr := hStr(gStr) + hN(gNode) + hSI(gSI) + i64(gFn())\nif s, ok := gAny.(string); ok {\nr += hStr(s)\n}\ngStr = \"\"\ngNode = nil\ngSI = nil\ngAny = nil\ngFn = nil\nreturn r", str("b"), str("c")))
 	g.add("package-level variables left parked, overwritten by the next visit", fmt.Sprintf("old := gStr\ngStr = %s + itoa(b)\nn := gNode\ngNode = &Node{val: c, rank: 0, name: old}\nif n != nil {\ngNode.val += n.val %% 7\n}\ngSI = append(gSI, b)\nif len(gSI) > 20 {\ngSI = gSI[:2]\n}\n"+clip("gStr")+"%s = old\nreturn hStr(old) + hN(gNode) + hSI(gSI)", str("b"), str("a")))
 	g.add("fields of a package-level struct and constant-index array elements", fmt.Sprintf("gHold.any = %s\ngHold.rows = append(gHold.rows, %s)\nif len(gHold.rows) > 6 {\ngHold.rows = nil\n}\ngHold.arr[1] = %s\ngArr[2] = gHold.arr[1] + \"z\"\ngArr[0] = gArr[2]\nr := hH(&gHold) + hStr(gArr[0])\nif c%%3 == 0 {\ngHold.any = nil\ngHold.arr[1] = \"\"\ngArr[2] = \"\"\ngArr[0] = \"\"\n}\nif c%%5 == 0 {\ngHold.rows = nil\n}\nreturn r", str("b"), si("c"), str("c")))
+	g.add("constant index of array-valued call results", fmt.Sprintf("st := mkStore(%s, %s, b)\nx := st.Snapshot()[0]\ny := mkArr(x, %s)[1]\nz := mkStore(y, x, c).names[1]\nn := st.Nodes()[0]\nfor i := 0; i < 1+c%%3; i++ {\nx = st.Snapshot()[1] + itoa(i)\nn = st.Nodes()[0]\n}\nr := x + y + z + st.names[0]\n"+clip("r")+"%s = r\nreturn hStr(r) + hN(n) + hN(st.nodes[0])", str("b"), str("c"), str("c"), str("a")))
 	g.add("string to runes and back", fmt.Sprintf("rs := []rune(%s + \"世a\")\nfor i := range rs {\nif i%%2 == c%%2 {\nrs[i] = rune('b' + (b+i)%%20)\n}\n}\nu := string(rs[1:]) + string(rs[0]) + string(rune(0x4e16+b%%8))\n"+clip("u")+"%s = u\nreturn hStr(u) + i64(len(rs))", str("b"), str("a")))
 	g.add("local array of strings copied by value", fmt.Sprintf("arr: [3]string\narr[b%%3] = %s\narr[c%%3] = %s + \"k\"\nt := arr\nt[0] = t[1] + t[2]\nr := arr[0] + \"|\" + t[0]\n"+clip("r")+"%s = r\nreturn hStr(r)", str("b"), str("c"), str("a")))
 	g.add("slice of slices of strings, inner append", fmt.Sprintf("rows := [][]string{}\nfor i := 0; i < 1+c%%3; i++ {\nrows = append(rows, []string{%s})\nrows[i] = append(rows[i], itoa(i+b))\nrows[0] = append(rows[0], rows[i][0])\n}\nr := \"\"\nfor _, row := range rows {\nfor _, x := range row {\nif len(r) < 120 {\nr += x\n}\n}\n}\n%s = r\nreturn hStr(r) + i64(len(rows[0]))", str("b"), str("a")))
